@@ -141,3 +141,163 @@ def hint_invisible(t1: int, t2: int, t3: int, t4: int, t5: int, tick: int, hint:
     if not clock.assume_ok:
         return True  # outside the clock axioms (not a reachable pair of kernel results)
     return done(hint <= g and idx == idx0 == g and ts == ts0)
+
+
+# ---------------------------------------------------------------------------------------------
+# C01 obligation 2 / C15 obligation 1: BPMEvent.from_parsed_data and the BPMEvents validator
+# ---------------------------------------------------------------------------------------------
+RAWS = ["120000", "0", "90500", "1"]      # tempo tokens used by the builders ("0" = zero tempo)
+
+
+def bpm_event_dataflow(prev_tick: int, tick: int, R: int, prev_us: int, prev_idx: int, u: int,
+                       has_prev: bool, ri: int) -> bool:
+    """
+    pre: 0 <= ri < len(RAWS)
+    pre: prev_tick >= 0 and tick >= 0
+    post: _
+    """
+    data = BPMEvent.ParsedData(tick=tick, raw_bpm=RAWS[ri])
+    prev = None
+    if has_prev:
+        prev = BPMEvent(tick=prev_tick, timestamp=AbsTime(prev_us), bpm=BPMS[1],
+                        _proximal_bpm_event_index=prev_idx)
+    clock = Clock("recorder", pool=[u])
+    with H.abstract_time(clock):
+        try:
+            ev = BPMEvent.from_parsed_data(data, prev, R)
+        except ValueError:
+            # strictly increasing ticks are required; the kernel guards reject R <= 0
+            return done(has_prev and (tick <= prev_tick or R <= 0))
+    ok = ev.tick == tick and ev.bpm == int(RAWS[ri]) / 1000
+    if not has_prev:
+        ok = ok and len(clock.log) == 0 and ev.timestamp.us == 0 and ev._proximal_bpm_event_index == 0
+        return done(ok)
+    ok = ok and tick > prev_tick and R > 0 and len(clock.log) == 1
+    if not ok:
+        return done(False)
+    (d, b, r, us) = clock.log[0]
+    ok = ok and d == tick - prev_tick and b is BPMS[1] and r == R
+    ok = ok and ev.timestamp.us == prev_us + u and ev._proximal_bpm_event_index == prev_idx + 1
+    return done(ok)
+
+
+NB = H.part("VF_NB", 3)
+
+
+def bpm_builder_validation(n: int, t0: int, t1: int, t2: int, t3: int, R: int,
+                           z0: bool, z1: bool, z2: bool, z3: bool) -> bool:
+    """
+    pre: 0 <= n <= NB
+    post: _
+    """
+    # arbitrary tempo data (any order, duplicates, zero tempos, any resolution) through the real
+    # builder: returns only for a trustworthy map, otherwise ValueError
+    import chartparse.track as T
+    ticks = [t0, t1, t2, t3][:n]
+    zero = [z0, z1, z2, z3][:n]
+    datas = [BPMEvent.ParsedData(tick=ticks[i], raw_bpm=("0" if zero[i] else "120000")) for i in range(n)]
+    clock = Clock("linear", mult={120.0: 5, 0.0: 1})
+    with H.abstract_time(clock):
+        try:
+            be = T.build_events_from_data(BPMEvent, datas, R)
+        except ValueError:
+            good = n >= 1 and R > 0 and ticks[0] == 0
+            for i in range(1, n):
+                good = good and ticks[i - 1] < ticks[i]
+            for i in range(n - 1):
+                good = good and not zero[i]       # a zero tempo followed by another event has no duration
+            return done(not good)
+    ok = n >= 1 and R > 0 and ticks[0] == 0 and len(be) == n and be.resolution == R
+    for i in range(1, n):
+        ok = ok and ticks[i - 1] < ticks[i]
+    for i in range(n - 1):
+        ok = ok and not zero[i]
+    if not ok:
+        return done(False)
+    for i in range(n):
+        ok = ok and be[i].tick == ticks[i] and be[i]._proximal_bpm_event_index == i
+        ok = ok and be[i].timestamp.us == 5 * ticks[i]
+    return done(ok)
+
+
+def zero_tempo_queries(t1: int, tick: int, hint: int, which: int) -> bool:
+    """
+    pre: 0 < t1 and tick >= -3 and 0 <= hint <= 1 and 0 <= which <= 1
+    post: _
+    """
+    # a tempo map whose `which`-th tempo is zero; queries governed by it (and negative ticks) raise
+    bp = [BPMS[0], BPMS[1]]
+    bp[which] = 0.0
+    evs = [BPMEvent(tick=0, timestamp=AbsTime(0), bpm=bp[0], _proximal_bpm_event_index=0),
+           BPMEvent(tick=t1, timestamp=AbsTime(7 * t1), bpm=bp[1], _proximal_bpm_event_index=1)]
+    be = BPMEvents(events=evs, resolution=192)
+    clock = Clock("linear", mult={BPMS[0]: 7, BPMS[1]: 3, 0.0: 1})
+    g = 1 if tick >= t1 else 0
+    with H.abstract_time(clock):
+        try:
+            ts, idx = be.timestamp_at_tick(tick, start_iteration_index=hint)
+        except ValueError:
+            return done(tick < 0 or g == which or hint > g)
+    return done(tick >= 0 and g != which and hint <= g and idx == g)
+
+
+def kernel_guards(d: int, R: int, bi: int) -> bool:
+    """
+    pre: 0 <= bi <= 3
+    post: _
+    """
+    b = [0.0, -1.5, 120.0, 0.001][bi]
+    try:
+        H._SEC_GUARDS(d, b, R)
+    except ValueError:
+        return done(d < 0 or b <= 0 or R <= 0)
+    return done(not (d < 0 or b <= 0 or R <= 0))
+
+
+def sync_track_validation(n: int, t0: int, t1: int) -> bool:
+    """
+    pre: 0 <= n <= 2
+    post: _
+    """
+    ticks = [t0, t1][:n]
+    tss = [S.TimeSignatureEvent(tick=t, timestamp=AbsTime(0), upper_numeral=4, lower_numeral=4) for t in ticks]
+    be = BPMEvents(events=mk_events([0], [AbsTime(0)]), resolution=192)
+    try:
+        S.SyncTrack(time_signature_events=tss, bpm_events=be, anchor_events=[])
+    except ValueError:
+        return done(n == 0 or ticks[0] != 0)
+    return done(n >= 1 and ticks[0] == 0)
+
+
+# ---------------------------------------------------------------------------------------------
+# C08 obligations 3 and 4
+# ---------------------------------------------------------------------------------------------
+from harness.h_instrument import RecTempo  # noqa: E402
+
+LMAX = H.part("VF_LMAX", 16)
+
+
+def time_signature_value(tick: int, upper: int, lower: int, has_lower: bool) -> bool:
+    """
+    pre: tick >= 0 and upper >= 0 and 0 <= lower <= LMAX
+    post: _
+    """
+    d = S.TimeSignatureEvent.ParsedData(tick=tick, upper=upper, lower=lower if has_lower else None)
+    ev = S.TimeSignatureEvent.from_parsed_data(d, None, RecTempo(192, [(0, 0)]))
+    want = 4
+    if has_lower:
+        want = 1
+        for _ in range(LMAX):
+            if _ < lower:
+                want = want * 2
+    return done(ev.upper_numeral == upper and ev.lower_numeral == want and ev.tick == tick)
+
+
+def anchor_value(tick: int, us: int) -> bool:
+    """
+    pre: tick >= 0 and 0 <= us < 10**13
+    post: _
+    """
+    ev = S.AnchorEvent.from_parsed_data(S.AnchorEvent.ParsedData(tick=tick, microseconds=us))
+    ts = ev.timestamp
+    return done(ev.tick == tick and (ts.days * 86400 + ts.seconds) * 10**6 + ts.microseconds == us)
